@@ -44,6 +44,7 @@ def shards(tier, seed):
     out = []
     for xlen in (32, 64):
         out += [{"kind": "rv", "xlen": xlen, "sub": j} for j in range(RV_SUB)]
+    out += [{"kind": "x86", "sub": j} for j in range(X86_SUB)]
     return out
 
 
@@ -190,17 +191,250 @@ def rv_shard(shard, tier, seed):
 
 
 # ---------------------------------------------------------------------------------------------
+# x86
+
+X86 = {"x64": "amoco.arch.x64.cpu_x64", "x86": "amoco.arch.x86.cpu_x86"}
+GPR64 = ["rax", "rcx", "rdx", "rbx", "rsp", "rbp", "rsi", "rdi", "r8", "r9", "r10", "r11", "r12", "r13", "r14", "r15"]
+GPR32 = ["eax", "ecx", "edx", "ebx", "esp", "ebp", "esi", "edi"]
+TABLE = os.path.join(os.path.dirname(os.path.dirname(os.path.abspath(__file__))), "corpus", "c06_x86_table.jsonl.gz")
+N_X86 = {"quick": 1500, "thorough": 40000}  # fresh vectors per shard
+X86_SUB = 8
+
+
+def shape(v):
+    """sub-class of shift/rotate vectors whose count is special (part of the bucket: separate root causes)"""
+    from vlib import x86gen as G
+
+    meta = v["meta"]
+    if "shift" not in meta or meta["name"] in ("SHLD", "SHRD"):
+        return ""
+    code = bytes.fromhex(v["code"])
+    k = 0
+    while code[k] in (0x66, 0x67, 0xF3):
+        k += 1
+    rexw = 0x48 <= code[k] <= 0x4F
+    c = G.shift_count(v)
+    raw = (code[-1] if meta["shift"] == "imm" else 1 if meta["shift"] == "one" else v["regs"][1] & 0xFF)
+    if meta["opsize"] < 64 and rexw and (raw & 0x3F) != (raw & 0x1F):
+        return "-rexw-count-mask"
+    if c == 0:
+        return "-count0"
+    if meta["name"] in ("ROL", "ROR") and c % meta["opsize"] == 0:
+        return "-count-multiple-of-size"
+    if meta["name"] in ("RCL", "RCR") and meta["opsize"] < 32:
+        return "-through-carry-small"
+    if c >= meta["opsize"]:
+        return "-count-ge-size"
+    return ""
+
+
+def x86_check(v, nat, arch):
+    """v: vector (vlib.x86gen), nat: the processor's result, arch: 'x64' | 'x86' (the IA-32 reading of an ia32 vector).
+    returns (status, bucket, detail): status ok|none|noref|fail|timeout"""
+    from amoco.cas.expressions import cst
+    from amoco.cas.mapper import mapper
+    from vlib import x86gen as G
+
+    if nat is None or nat["sig"] != 0:
+        return ("noref", None, None)
+    meta = v["meta"]
+    I = isa_of(X86[arch])
+    cpu = I.cpu
+    reset_sf(I)
+    code = bytes.fromhex(v["code"])
+    try:
+        i = I.decode(code, address=G.INSN, guard=5)
+    except visa.HarnessTimeout:
+        return ("timeout", None, None)
+    except Exception:
+        return ("none", None, None)
+    if i is None or i.length != len(code):
+        return ("none", None, None)  # boundaries are C07's
+    bits = 64 if arch == "x64" else 32
+    Xm = (1 << bits) - 1
+    names = GPR64 if arch == "x64" else GPR32
+    gpr = [getattr(cpu, n) for n in names]
+    tag = "%s:%s%s" % (arch, meta["name"], shape(v))
+    form = "m" if "memaddr" in meta else "r"
+    m = mapper()
+    for r, val in zip(gpr, v["regs"]):
+        m[r] = cst(val & Xm, bits)
+    m[cpu.rip if arch == "x64" else cpu.eip] = cst(G.INSN, bits)
+    m[cpu.rflags if arch == "x64" else cpu.eflags] = cst(v["flags"], bits)
+    m.mmap.write(G.DATA, G.data_bytes(v["salt"], v.get("poke")))
+    m.mmap.write(G.SPAGE, G.stack_bytes(v["salt"], v["stk0"]))
+    try:
+        with visa.time_guard(10):
+            i(m)
+    except visa.HarnessTimeout:
+        return ("timeout", None, None)
+    except Exception as x:
+        return ("fail", "%s:exception:%s" % (tag, type(x).__name__), "%s %s (opsize %d, %s form) raised %r" % (v["code"], meta["name"], meta["opsize"], form, x))
+
+    def const(e):
+        """int | None (symbolic: depends on state that was not given) | 'top' (amoco declares the value unknown) | 'exc:Type'"""
+        from vlib import refsem
+
+        try:
+            val = m(e)
+            if val._is_cst:
+                return val.v & ((1 << val.size) - 1)
+            try:
+                # value of a constant expression that amoco left unreduced (computed by the independent walker)
+                return refsem.walk(val, {})
+            except refsem.Inconclusive as x:
+                return "top" if str(x) == "top" else None
+        except Exception as x:
+            return "exc:%s" % type(x).__name__
+
+    def bad(what, exp, got):
+        kind = "symbolic" if got is None else ("exception" if isinstance(got, str) else "value")
+        return ("fail", "%s:%s:%s" % (tag, what, kind), "%s %s (opsize %d, %s form, %s): %s: processor %s, amoco %s; registers before: %s flags before: %#x"
+                % (v["code"], meta["name"], meta["opsize"], form, arch, what, hex(exp) if isinstance(exp, int) else exp, hex(got) if isinstance(got, int) else got,
+                   " ".join("%s=%#x" % (n, val) for n, val in zip(names, v["regs"])), v["flags"]))
+
+    mask, cmp_dest = G.defined(v)
+    # next instruction pointer
+    exp_ip = (G.INSN + v["tgt"]) if nat["taken"] else G.INSN + len(code)
+    got = const(cpu.rip if arch == "x64" else cpu.eip)
+    if got != exp_ip:
+        return bad("ip", exp_ip, got)
+    if cmp_dest is False:
+        return ("ok", None, None)
+    skip = set()
+    tops = []
+    if cmp_dest == "bsx" and nat["flags"] & G.ZF:
+        skip.add(meta.get("reg"))  # destination undefined when the source is 0
+    for k, r in enumerate(gpr):
+        if k in skip:
+            continue
+        got = const(r)
+        if got == "top":
+            tops.append(names[k])
+            continue
+        if got != nat["regs"][k] & Xm:
+            return bad("reg", nat["regs"][k] & Xm, got)
+    for fn, bit in G.FLAGBITS.items():
+        if not ((mask | G.DF) >> bit) & 1:
+            continue
+        got = const(getattr(cpu, fn))
+        if got == "top":
+            tops.append(fn)
+            continue
+        if got != (nat["flags"] >> bit) & 1:
+            return bad("flag-" + fn, (nat["flags"] >> bit) & 1, got)
+    for what, base, size, ref in (("mem", G.DATA, G.DSZ, nat["data"]), ("stack", G.SPAGE, G.SSZ, nat["stack"])):
+        try:
+            parts = m.mmap.read(base, size)
+        except Exception as x:
+            return bad(what, "readable", "exc:%s" % type(x).__name__)
+        pos = 0
+        for part in parts:
+            if isinstance(part, bytes):
+                b = part
+            elif part._is_cst:
+                b = (part.v & ((1 << part.size) - 1)).to_bytes(part.size // 8, "little")
+            else:
+                from vlib import refsem
+
+                try:
+                    b = refsem.walk(part, {}).to_bytes(part.size // 8, "little")
+                except refsem.Inconclusive as x:
+                    if str(x) == "top":
+                        tops.append("%s+%#x" % (what, pos))
+                        pos += part.size // 8
+                        continue
+                    return bad(what, "constant bytes at +%#x" % pos, None)
+            if b != ref[pos: pos + len(b)]:
+                k = next(j for j in range(len(b)) if b[j] != ref[pos + j])
+                return bad("%s" % what, "byte %#x at %#x" % (ref[pos + k], base + pos + k), b[k])
+            pos += len(b)
+    if tops:
+        return ("ok-partial", None, ",".join(tops))
+    return ("ok", None, None)
+
+
+def x86_account(part, v, nat, src):
+    archs = ["x64"] + (["x86"] if v["meta"].get("ia32") else [])
+    for arch in archs:
+        st_, bucket, detail = x86_check(v, nat, arch)
+        part.count("%s:%s:%s" % (arch, src, st_))
+        nt = st_ in ("ok", "ok-partial", "fail")
+        meta = v["meta"]
+        if st_ == "ok-partial":
+            part.count("%s:unknown(top)-results-not-compared:%s" % (arch, meta["name"]))
+        part.case((arch, v["code"], tuple(v["regs"]), v["flags"], v["salt"]), nt,
+                  dict(arch=arch, code=v["code"], instruction=meta["name"], opsize=meta["opsize"], form="m" if "memaddr" in meta else "r", source=src, result=st_))
+        if nt:
+            part.count("%s:instr:%s" % (arch, meta["name"]))
+            part.count("%s:opsize:%d" % (arch, meta["opsize"]))
+            part.count("%s:form:%s" % (arch, "memory" if "memaddr" in meta else "register"))
+        if st_ == "fail":
+            part.fail(bucket, dict(kind="x86", arch=arch, row=G_compact(v, nat)), detail)
+
+
+def G_compact(v, nat):
+    from vlib import x86gen as G
+
+    return G.compact(v, nat)
+
+
+def load_table():
+    with gzip.open(TABLE, "rt") as f:
+        for line in f:
+            yield json.loads(line)
+
+
+def x86_shard(shard, tier, seed):
+    from hypothesis import strategies as st
+    from vlib import x86gen as G
+
+    part = Partial()
+    j = shard["sub"]
+    if os.path.exists(TABLE):
+        for n, row in enumerate(load_table()):
+            if n % X86_SUB == j:
+                v, nat = G.expand(row)
+                x86_account(part, v, nat, "table")
+    if not G.have_native():
+        part.count("x86:fresh:no-native-executor")
+        return part
+    BATCH = 250
+
+    def body(rnd):
+        vs = []
+        while len(vs) < BATCH:
+            v = G.gen_vector(rnd, ia32=rnd.random() < 0.3)
+            if v is not None:
+                vs.append(v)
+        res = G.run_native(vs)
+        for v, nat in zip(vs, res):
+            x86_account(part, v, nat, "fresh")
+
+    campaign(st.randoms(use_true_random=True), body, max(1, N_X86[tier] // BATCH), shard_seed(seed, "x86:%d" % j))
+    return part
+
+
+# ---------------------------------------------------------------------------------------------
 
 
 def run_shard(shard, tier, seed):
     if shard["kind"] == "rv":
         return rv_shard(shard, tier, seed)
+    if shard["kind"] == "x86":
+        return x86_shard(shard, tier, seed)
     raise ValueError(shard)
 
 
 def replay(case):
     if case["kind"] == "rv":
         st_, bucket, detail, info = rv_check(case)
+        return (bucket, detail) if st_ == "fail" else None
+    if case["kind"] == "x86":
+        from vlib import x86gen as G
+
+        v, nat = G.expand(case["row"])
+        st_, bucket, detail = x86_check(v, nat, case["arch"])
         return (bucket, detail) if st_ == "fail" else None
     raise ValueError(case)
 
